@@ -1221,6 +1221,10 @@ class BaseSQL(
                     for col in data["columns"]:
                         if col["name"] == col_name:
                             col["unique"] = True
+                    # the column may be declared after the UNIQUE clause: flagged in BaseData.add_unique_columns
+                    if not data.get("unique"):
+                        data["unique"] = []
+                    data["unique"].append(col_name)
             else:
                 # We have a constraint specified unique statement.
                 data = self.set_constraint(
